@@ -59,6 +59,11 @@ NoDuplicateNodes(st) == \A i \in 0..(NBr(st) - 1) : NoDup(Br(st, i).nodes)
 TicksOnBranch(st) ==
   \A i \in 0..(NBr(st) - 1) : SeqSet(Br(st, i).ticked) \subseteq SeqSet(Br(st, i).nodes)
 
+\* stat() never reports a tick the branch does not have (tick bookkeeping is per branch; ticks inherited from
+\* the parent at a fork have no per-branch stat entry, so only this direction is demanded)
+TickStatAgrees(st) ==
+  \A i \in 0..(NBr(st) - 1) : SeqSet(Br(st, i).stat_ticked) \subseteq SeqSet(Br(st, i).ticked)
+
 \* recorded step numbers of additions, ticks and closures are non-decreasing
 \* along a branch and never in the future
 StepNumbers(st) ==
@@ -89,6 +94,7 @@ StateFail(st) ==
   ELSE IF ~OpenIsExactlyUnclosed(st) THEN "OpenIsExactlyUnclosed"
   ELSE IF ~ClosedMeansClosureLeaf(st) THEN "ClosedMeansClosureLeaf"
   ELSE IF ~TicksOnBranch(st) THEN "TicksOnBranch"
+  ELSE IF ~TickStatAgrees(st) THEN "TickStatAgrees"
   ELSE IF ~StepNumbers(st) THEN "StepNumbers"
   ELSE ""
 
@@ -100,6 +106,7 @@ BranchesOnlyGrow(a, b) ==
        /\ SeqSet(Br(a, i).ticked) \subseteq SeqSet(Br(b, i).ticked)
        /\ Br(a, i).parent = Br(b, i).parent
        /\ Br(a, i).step_added = Br(b, i).step_added
+       /\ SeqSet(Br(a, i).tickstep) \subseteq SeqSet(Br(b, i).tickstep)       \* a recorded tick step never changes
 
 ClosedNeverExtended(a, b) ==
   \A i \in 0..(NBr(a) - 1) :
